@@ -7,7 +7,7 @@ PROP = dict(
     ],
     bounds="stash: ONE store/get from every raw ring state (read<8, valid<=8, arbitrary 1-byte cookies, arbitrary stale free slots) checked through the full "
            "abstraction function (= inductive step for histories of any length), plus 4 (quick) / 6 (thorough) consecutive operations from every raw state; "
-           "poll: every stash fill 0..=8, cookie length 0..=64 with symbolic content (handle_timer) / 0..=32 and every count 1..=8 (request builders), NTPv4 and NTPv5, "
+           "poll: every stash fill 0..=8, cookie length 0..=64 with symbolic content (handle_timer) / 0..=32 (v4) or 0..=8 (v5) and every count 1..=8 (request builders), NTPv4 and NTPv5, "
            "any reach/tries/poll desire, every random draw",
     outside="the wire encoding of the request (NtpPacket::serialize) is not part of these queries: the property is decided on (a) what handle_timer hands to the request builder "
             "and (b) the extension-field list the builder creates; handle_timer + builder + encoder in one query does not finish (see C14). Cookie lengths above 64 in the poll "
